@@ -1,4 +1,5 @@
 import FxpVerif.Model.Chk
+import FxpVerif.Model.Arith
 /-! Line-protocol helpers for the correspondence driver (core Lean only). -/
 namespace Fxp.Proto
 
@@ -52,6 +53,24 @@ def pOverflow (s : String) : P Overflow :=
   | "saturate" => pure .saturate
   | "wrap" => pure .wrap
   | _ => throw s!"bad overflow '{s}'"
+
+def pPolicy (s : String) : P Policy :=
+  match s with
+  | "optimal" => pure .optimal
+  | "same" => pure .same
+  | "largest" => pure .largest
+  | "smallest" => pure .smallest
+  | _ => throw s!"bad policy '{s}'"
+
+def pBinOp (s : String) : P BinOp :=
+  match s with
+  | "add" => pure .add
+  | "sub" => pure .sub
+  | "mul" => pure .mul
+  | "truediv" => pure .truediv
+  | "floordiv" => pure .floordiv
+  | "mod" => pure .mod
+  | _ => throw s!"bad op '{s}'"
 
 /-- lists are written `[a,b,c]` without blanks; `[]` is empty. -/
 def pList {α} (p : String → P α) (s : String) : P (List α) := do
